@@ -280,6 +280,7 @@ _EXTRA = {
     'R58': (['C05'], 'R58: rearrange(attributes_first=True) tells attributes from edges with the variables of all nodes of the tree (t.nodes()), the top included.'),
     'R14': (['C10'], 'R14 (E4): nodes(), format, interpret and the other read-only calls on a tree do not write to it (a cache written by a query goes stale when the tree is rearranged, and relabelling then numbers the old order).'),
     'R14r': (['C17', 'C13', 'C20'], 'R14r (E4): the tree returned by canonicalize_roles / configure / reconfigure / parse contains no list object of an argument (the points-to closure of the result is disjoint from the parameters\' lists), so the in-place operations on the result cannot reach the original.'),
+    'R88': (['C01', 'C02', 'C03', 'C09', 'C11', 'C12', 'C15', 'C16', 'C20'], 'R88: a constructor stores what it is given (reaching definitions: the parameter itself reaches self.x) and every Graph / Tree built from a graph or tree argument is given that argument\'s metadata.'),
     'R87': (['C20', 'C17'], 'R87: the option tables main() builds once are only read by process/_process_in/_process_out (alias-following over what is unpacked from them).'),
     'R86': (['C01', 'C07', 'C09', 'C20'], 'R86: an argument annotated as Iterable / Iterator / file is walked at most once on every path (a second walk of a file or generator finds nothing).'),
 }
